@@ -20,9 +20,13 @@ class SemGen(gens_typed.TypedGen):
         super().__init__(rng, features=SEM_FEATURES, str_pool=STR_POOL, fields=SEM_FIELDS)
 
 def rows_for(rng, n):
+    """a coverage block (every value of the string domain occurs in s1 and in s2, every integer in i1 and i2 — detection must not depend on the
+    luck of the draw) followed by random rows up to n"""
     rows = []
-    for i in range(n):
-        rows.append({"id": i + 1, "i1": rng.choice(INTS), "i2": rng.choice(INTS), "s1": rng.choice(STRS), "s2": rng.choice(STRS), "b1": rng.choice(BOOLS)})
+    for i, v in enumerate(STRS):
+        rows.append({"id": len(rows) + 1, "i1": INTS[i % len(INTS)], "i2": INTS[(i * 3 + 1) % len(INTS)], "s1": v, "s2": STRS[(i * 7 + 3) % len(STRS)], "b1": BOOLS[i % len(BOOLS)]})
+    while len(rows) < n:
+        rows.append({"id": len(rows) + 1, "i1": rng.choice(INTS), "i2": rng.choice(INTS), "s1": rng.choice(STRS), "s2": rng.choice(STRS), "b1": rng.choice(BOOLS)})
     return rows
 
 def product_rows():
